@@ -133,6 +133,8 @@ impl FileDesc {
                 object.transfer_length,
                 oti.encoding_symbol_length as u64,
             );
+            // Z (number of source blocks) must be > 0 on the wire, also for an empty object
+            let nb_blocks = nb_blocks.max(1);
 
             if oti.fec_encoding_id == oti::FECEncodingID::RaptorQ {
                 if oti.scheme_specific.is_none() {
